@@ -368,14 +368,67 @@ def determinize(n, starts=None):
     return DFA(alpha, trans, 0, accept)
 
 
-def compile_regex(alpha, pattern, flags=0):
+def _case_variants(c):
+    ch = chr(c)
+    out = {c}
+    for v in (ch.lower(), ch.upper(), ch.swapcase()):
+        if len(v) == 1:
+            out.add(ord(v))
+    return out
+
+
+def _expand_ignorecase(items):
+    """re.IGNORECASE made explicit: every literal / set member is replaced by the set of its simple case variants (what
+    the re engine does for characters whose case mapping is one-to-one)."""
+    out = []
+    for op, av in items:
+        if op is C.LITERAL:
+            vs = sorted(_case_variants(av))
+            out.append((C.IN, [(C.LITERAL, v) for v in vs]) if len(vs) > 1 else (op, av))
+        elif op is C.NOT_LITERAL:
+            vs = sorted(_case_variants(av))
+            out.append((C.IN, [(C.NEGATE, None)] + [(C.LITERAL, v) for v in vs]))
+        elif op is C.IN:
+            new = []
+            for o2, a2 in av:
+                new.append((o2, a2))
+                if o2 is C.LITERAL:
+                    new += [(C.LITERAL, v) for v in sorted(_case_variants(a2) - {a2})]
+                elif o2 is C.RANGE:
+                    if a2[1] - a2[0] > 2048:
+                        raise AnalysisError('case-insensitive range too large for the language analysis')
+                    extra = set()
+                    for c in range(a2[0], a2[1] + 1):
+                        extra |= _case_variants(c)
+                    new += [(C.LITERAL, v) for v in sorted(extra) if not (a2[0] <= v <= a2[1])]
+            out.append((C.IN, new))
+        elif op is C.BRANCH:
+            out.append((op, (av[0], [_expand_ignorecase(list(alt)) for alt in av[1]])))
+        elif op in (C.MAX_REPEAT, C.MIN_REPEAT):
+            out.append((op, (av[0], av[1], _expand_ignorecase(list(av[2])))))
+        elif op is C.SUBPATTERN:
+            out.append((op, (av[0], av[1], av[2], _expand_ignorecase(list(av[3])))))
+        else:
+            out.append((op, av))
+    return out
+
+
+def _parse(pattern, flags=0):
+    import re as _re
     parsed = sre_parse.parse(pattern, flags)
-    return determinize(build_nfa(alpha, parsed))
+    items = list(parsed)
+    if (flags | parsed.state.flags) & _re.IGNORECASE:
+        items = _expand_ignorecase(items)
+    return items
+
+
+def compile_regex(alpha, pattern, flags=0):
+    return determinize(build_nfa(alpha, _parse(pattern, flags)))
 
 
 def points_of(pattern, flags=0):
     pts = set()
-    collect_points(sre_parse.parse(pattern, flags), pts)
+    collect_points(_parse(pattern, flags), pts)
     return pts
 
 
